@@ -186,6 +186,7 @@ type Conn struct {
 	stall      chan struct{}
 
 	blockedNoDeadline atomic.Int32
+	stalledNoDeadline atomic.Int32
 	blockedReads      atomic.Int32
 	blockedWrites     atomic.Int32
 }
@@ -274,6 +275,11 @@ func (c *Conn) SetSyncWrites(on bool) {
 	}
 	c.mu.Unlock()
 }
+
+// StalledNoDeadline reports how many Write calls are waiting on a stalled
+// connection (StallWrites) that had no write deadline armed when they began to
+// wait.
+func (c *Conn) StalledNoDeadline() int { return int(c.stalledNoDeadline.Load()) }
 
 // BlockedWrites reports how many Write calls are waiting for the peer to read
 // (synchronous-write mode only).
@@ -530,11 +536,23 @@ func (c *Conn) Write(p []byte) (int, error) {
 		act()
 	}
 	if stall != nil {
+		noDl := !c.wd.armed()
+		if noDl {
+			c.stalledNoDeadline.Add(1)
+		}
+		unblock := func() {
+			if noDl {
+				c.stalledNoDeadline.Add(-1)
+			}
+		}
 		select {
 		case <-stall:
+			unblock()
 		case <-c.closed:
+			unblock()
 			return 0, io.ErrClosedPipe
 		case <-c.wd.wait():
+			unblock()
 			return 0, &net.OpError{Op: "write", Net: "bufconn", Err: timeoutError{}}
 		}
 	}
